@@ -39,6 +39,8 @@ def run(case):
             if md['inherit'] and not c.get('inherit_class'):
                 fn = deal.inherit(fn)
             body[mname] = fn
+        if case.get('falsy') and not c['bases']:
+            body['__bool__'] = lambda self: False        # instances whose truth value is False (an empty container)
         cls = type(c['name'], tuple(env[b] for b in c['bases']), body)
         if c.get('inherit_class'):
             cls = deal.inherit(cls)
@@ -50,7 +52,7 @@ def run(case):
             try: getattr(cls(), mname, None)
             except BaseException: pass
             finally: deal.enable()
-        if not hasattr(cls, mname):
+        if not any(mname in vars(k) for k in cls.__mro__):       # (not hasattr: the first look-up shall be the one through the instance)
             out.append({'line': f'{cname}.{mname}= mro=' + '>'.join(k.__name__ for k in cls.__mro__), 'enforced_first': [], 'enforced_second': [], 'self_first': [], 'self_second': []})
             continue
         all_ids = sorted({cid for c in case['classes'] for _, md in c['methods'] for cid in md['contracts']})
